@@ -586,4 +586,235 @@ theorem sweepYield_step : StepInv (LoopEnv (τ := τ))
   halfAdvance := fun s hi => hi
   clear := fun s hi => hi
 
+/-! ### the entered frames are an outline, on every visit -/
+
+/-- the entered frames of framer `i` are nothing, or the outline of one of its frames — with the program `F` -/
+def AOK (i : Nat) (F : List Frame) (w : World τ) : Prop :=
+  (w.framers i).frames = F ∧ ((w.framers i).actives = [] ∨ ∃ f, (w.framers i).actives = outline F f)
+
+/-- an update that touches neither the program nor the entered frames of anybody -/
+def KeepA (w w' : World τ) : Prop :=
+  ∀ k, (w'.framers k).frames = (w.framers k).frames ∧ (w'.framers k).actives = (w.framers k).actives
+
+theorem keepA_refl (w : World τ) : KeepA w w := fun _ => ⟨rfl, rfl⟩
+theorem keepA_trans {w w' w'' : World τ} (h1 : KeepA w w') (h2 : KeepA w' w'') : KeepA w w'' :=
+  fun k => ⟨(h2 k).1.trans (h1 k).1, (h2 k).2.trans (h1 k).2⟩
+theorem keepA_aok {i : Nat} {F : List Frame} {w w' : World τ} (h : KeepA w w') (ha : AOK i F w) : AOK i F w' := by
+  unfold AOK at *
+  rw [(h i).1, (h i).2]; exact ha
+
+theorem keepA_modF (j : Nat) (w : World τ) (g : Fr τ → Fr τ)
+    (hf : ∀ f, (g f).frames = f.frames) (ha : ∀ f, (g f).actives = f.actives) : KeepA w (w.modF j g) := by
+  intro k; simp only [World.modF]; split
+  · rename_i h; subst h; exact ⟨hf _, ha _⟩
+  · exact ⟨rfl, rfl⟩
+
+theorem keepA_setDesire (j : Nat) (c : Control) (w : World τ) : KeepA w (Ioflo.SkedLoop.setDesire j c w) :=
+  by
+  intro k; simp only [Ioflo.SkedLoop.setDesire, Ioflo.SkedLoop.setStatus, Ioflo.SkedLoop.bumpRecurred, Ioflo.SkedLoop.setRecurred, Ioflo.SkedLoop.die, World.modF]; split <;> simp_all
+theorem keepA_setStatus (j : Nat) (c : Status) (w : World τ) : KeepA w (Ioflo.SkedLoop.setStatus j c w) :=
+  by
+  intro k; simp only [Ioflo.SkedLoop.setDesire, Ioflo.SkedLoop.setStatus, Ioflo.SkedLoop.bumpRecurred, Ioflo.SkedLoop.setRecurred, Ioflo.SkedLoop.die, World.modF]; split <;> simp_all
+theorem keepA_bumpRecurred (j : Nat) (w : World τ) : KeepA w (Ioflo.SkedLoop.bumpRecurred j w) :=
+  by
+  intro k; simp only [Ioflo.SkedLoop.setDesire, Ioflo.SkedLoop.setStatus, Ioflo.SkedLoop.bumpRecurred, Ioflo.SkedLoop.setRecurred, Ioflo.SkedLoop.die, World.modF]; split <;> simp_all
+theorem keepA_die (j : Nat) (w : World τ) : KeepA w (Ioflo.SkedLoop.die j w) :=
+  by
+  intro k; simp only [Ioflo.SkedLoop.setDesire, Ioflo.SkedLoop.setStatus, Ioflo.SkedLoop.bumpRecurred, Ioflo.SkedLoop.setRecurred, Ioflo.SkedLoop.die, World.modF]; split <;> simp_all
+
+theorem keepA_setRecurred (j n : Nat) (w : World τ) : KeepA w (Ioflo.SkedLoop.setRecurred j n w) := by
+  intro k; simp only [Ioflo.SkedLoop.setRecurred, World.modF]; split <;> simp_all
+
+theorem keepA_bids (c : Control) : ∀ (ts : List Nat) (w : World τ),
+    KeepA w (ts.foldl (fun w t => Ioflo.SkedLoop.setDesire t c w) w)
+  | [], w => keepA_refl w
+  | t :: ts, w => by
+    simp only [List.foldl_cons]
+    exact keepA_trans (keepA_setDesire t c w) (keepA_bids c ts _)
+
+theorem keepA_execAct (i f : Nat) (ctx : Ctx) (a : Act) (w : World τ) : KeepA w (execAct i f ctx a w).w := by
+  have heff : ∀ w0 : World τ, KeepA w0 (execAct.effect i f ctx a w0) := by
+    intro w0; unfold execAct.effect
+    cases a with
+    | record => exact fun _ => ⟨rfl, rfl⟩
+    | step => exact keepA_refl _
+    | bid ts c => exact keepA_bids c ts w0
+  have h0 : KeepA w { w with count := w.count + 1 } := fun _ => ⟨rfl, rfl⟩
+  unfold Ioflo.SkedLoop.execAct
+  simp only []
+  split
+  · split
+    · exact h0
+    · exact keepA_trans h0 (heff _)
+  · exact keepA_trans h0 (heff _)
+
+theorem keepA_andThen {w : World τ} {r : Res τ} {g : World τ → Res τ}
+    (h1 : KeepA w r.w) (h2 : ∀ w1, KeepA w1 (g w1).w) : KeepA w (r.andThen g).w := by
+  unfold Res.andThen; split
+  · exact h1
+  · exact keepA_trans h1 (h2 _)
+
+theorem keepA_runActs (i f : Nat) (ctx : Ctx) : ∀ (acts : List Act) (w : World τ), KeepA w (runActs i f ctx acts w).w
+  | [], w => keepA_refl w
+  | a :: rest, w => keepA_andThen (keepA_execAct i f ctx a w) (fun w1 => keepA_runActs i f ctx rest w1)
+
+theorem keepA_runFrames (i : Nat) (ctx : Ctx) : ∀ (fs : List Nat) (w : World τ), KeepA w (runFrames i ctx fs w).w
+  | [], w => keepA_refl w
+  | f :: rest, w => keepA_andThen (keepA_runActs i f ctx _ w) (fun w1 => keepA_runFrames i ctx rest w1)
+
+theorem keepA_enterFrames (i : Nat) (l : List Nat) (w : World τ) : KeepA w (enterFrames i l w).w := by
+  unfold Ioflo.SkedLoop.enterFrames
+  split
+  · exact keepA_runFrames i .enter l w
+  · exact keepA_trans (keepA_setRecurred i 0 w) (keepA_runFrames i .enter l _)
+
+theorem keepA_exitFrames (i : Nat) (l : List Nat) (w : World τ) : KeepA w (exitFrames i l w).w :=
+  keepA_runFrames i .exit _ w
+
+theorem aok_setActives_outline {i : Nat} {F : List Frame} {w : World τ} (h : (w.framers i).frames = F) (f : Nat) :
+    AOK i F (setActives i (outline F f) w) := by
+  unfold AOK setActives World.modF; simp only [if_true]; exact ⟨h, Or.inr ⟨f, rfl⟩⟩
+
+theorem aok_setActives_nil {i : Nat} {F : List Frame} {w : World τ} (h : (w.framers i).frames = F) :
+    AOK i F (setActives i [] w) := by
+  unfold AOK setActives World.modF; simp [h]
+
+/-- **`enterAll` makes the outline of the first frame the entered frames** — whatever happened before -/
+theorem enterAll_actives (i : Nat) (w : World τ) :
+    ((enterAll i w).w.framers i).actives = outline (w.framers i).frames (w.framers i).first ∧
+    ((enterAll i w).w.framers i).frames = (w.framers i).frames := by
+  unfold Ioflo.SkedLoop.enterAll
+  have h := keepA_enterFrames i (outline (w.framers i).frames (w.framers i).first)
+    (setActives i (outline (w.framers i).frames (w.framers i).first) w) i
+  rw [h.1, h.2]
+  simp [setActives, World.modF]
+
+
+theorem aok_andThen {i : Nat} {F : List Frame} {r : Res τ} {g : World τ → Res τ}
+    (h1 : AOK i F r.w) (h2 : ∀ w1, AOK i F w1 → AOK i F (g w1).w) : AOK i F (r.andThen g).w := by
+  unfold Res.andThen; split
+  · exact h1
+  · exact h2 _ h1
+
+theorem aok_enterAll {i : Nat} {F : List Frame} {w : World τ} (h : AOK i F w) : AOK i F (enterAll i w).w := by
+  obtain ⟨ha, hf⟩ := enterAll_actives i w
+  refine ⟨hf.trans h.1, Or.inr ⟨(w.framers i).first, ?_⟩⟩
+  rw [ha, h.1]
+
+theorem aok_exitAll {i : Nat} {F : List Frame} {w : World τ} (h : AOK i F w) : AOK i F (exitAll i w).w := by
+  unfold Ioflo.SkedLoop.exitAll
+  refine aok_andThen (keepA_aok (keepA_exitFrames i _ w) h) ?_
+  intro w1 h1
+  exact aok_setActives_nil h1.1
+
+theorem aok_recur {i : Nat} {F : List Frame} {w : World τ} (h : AOK i F w) : AOK i F (recur i w).w :=
+  keepA_aok (keepA_runFrames i .recur _ w) h
+
+theorem aok_tryTrans {i : Nat} {F : List Frame} : ∀ (ts : List (Nat × Nat)) (w : World τ) (r : Res τ),
+    AOK i F w → tryTrans i ts w = some r → AOK i F r.w
+  | [], w, r, _, h => by simp [Ioflo.SkedLoop.tryTrans] at h
+  | (n, target) :: rest, w, r, ha, h => by
+    simp only [Ioflo.SkedLoop.tryTrans] at h
+    split at h
+    · split at h
+      · exact aok_tryTrans rest w r ha h
+      · simp only [Option.some.injEq] at h
+        subst h
+        refine aok_andThen (keepA_aok (keepA_exitFrames i _ w) ha) ?_
+        intro w1 h1
+        refine aok_andThen (keepA_aok (keepA_enterFrames i _ w1) h1) ?_
+        intro w2 h2
+        have := aok_setActives_outline (w := w2) h2.1 target
+        rw [ha.1]; exact this
+    · exact aok_tryTrans rest w r ha h
+
+theorem aok_precurFrames {i : Nat} {F : List Frame} : ∀ (l : List Nat) (w : World τ),
+    AOK i F w → AOK i F (precurFrames i l w).w
+  | [], w, h => h
+  | f :: rest, w, h => by
+    simp only [Ioflo.SkedLoop.precurFrames]
+    split
+    · rename_i r hr; exact aok_tryTrans _ w r h hr
+    · exact aok_precurFrames rest w h
+
+theorem aok_segue {i : Nat} {F : List Frame} {w : World τ} (h : AOK i F w) : AOK i F (segue i w).w := by
+  unfold Ioflo.SkedLoop.segue
+  exact aok_precurFrames _ _ (keepA_aok (keepA_bumpRecurred i w) h)
+
+/-- **One resumption keeps "the entered frames are nothing or the outline of a frame of the program"** —
+crash or not, whatever control, whatever status. -/
+theorem aok_table {i : Nat} {F : List Frame} (c : Control) {w : World τ} (h : AOK i F w) : AOK i F (table i c w).w := by
+  have hbad : AOK i F (bad i w).w := keepA_aok (keepA_trans (keepA_setDesire i .abort w) (keepA_setStatus i .aborted _)) h
+  have hrun : AOK i F (runLive i w).w := by
+    unfold runLive
+    refine aok_andThen (aok_andThen (aok_segue h) (fun w1 h1 => aok_recur h1)) ?_
+    intro w1 h1; exact keepA_aok (keepA_setStatus i _ w1) h1
+  have hstart : AOK i F (startIdle i w).w := by
+    unfold startIdle
+    refine aok_andThen (aok_andThen (aok_enterAll (keepA_aok (keepA_setDesire i .run w) h)) (fun w1 h1 => aok_recur h1)) ?_
+    intro w1 h1; exact keepA_aok (keepA_setStatus i _ w1) h1
+  have hstop : AOK i F (stopLive i w).w := by
+    unfold stopLive
+    refine aok_andThen (aok_exitAll (keepA_aok (keepA_setDesire i .stop w) h)) ?_
+    intro w1 h1; exact keepA_aok (keepA_setStatus i _ w1) h1
+  have habort : ∀ b, AOK i F (abortAny i b w).w := by
+    intro b
+    unfold abortAny
+    refine aok_andThen ?_ ?_
+    · split
+      · exact aok_exitAll h
+      · exact h
+    · intro w1 h1
+      exact keepA_aok (keepA_trans (keepA_setDesire i .abort w1) (keepA_setStatus i .aborted _)) h1
+  have hsd : ∀ c', AOK i F (Ioflo.SkedLoop.setDesire i c' w) := fun c' => keepA_aok (keepA_setDesire i c' w) h
+  have hss : ∀ c', AOK i F (Ioflo.SkedLoop.setStatus i c' w) := fun c' => keepA_aok (keepA_setStatus i c' w) h
+  unfold Ioflo.SkedLoop.table
+  simp only []
+  cases c <;> simp only [] <;> (repeat' split) <;> first | assumption | exact hsd _ | exact hss _ | exact habort _
+
+/-- a resumption of framer `i` does not touch program or entered frames of another framer -/
+theorem aok_table_other {i k : Nat} {F : List Frame} (c : Control) {w : World τ} (hk : k ≠ i) (h : AOK k F w) :
+    AOK k F (table i c w).w := by
+  have hp := (table_presO i c w)
+  unfold AOK at *
+  rw [(hp.frames k).1, hp.actives k hk]; exact h
+
+
+/-- every framer's entered frames are nothing or the outline (top first) of one of the frames of its program `F k` -/
+def Outlined (F : Nat → List Frame) (w : World τ) : Prop := ∀ k, AOK k (F k) w
+
+theorem outlined_send (F : Nat → List Frame) (ph : Phase) (i : Nat) (c : Control) (st : τ) (w : World τ)
+    (h : Outlined F w) : Outlined F ((LoopEnv (τ := τ)).send ph i c st w).2 := by
+  intro k
+  let w1 : World τ := { w with trace := w.trace ++ [.recv ph i c] }
+  have h1 : AOK k (F k) w1 := h k
+  have hfr := (loopEnv_send_framers ph i c st w).1
+  have hs : AOK k (F k) (send i c w1).2 := by
+    unfold Ioflo.SkedLoop.send
+    split
+    · exact h1
+    · have ht : AOK k (F k) (Ioflo.SkedLoop.table i c w1).w := by
+        by_cases hk : k = i
+        · subst hk; exact aok_table c h1
+        · exact aok_table_other c hk h1
+      simp only []
+      split
+      · exact keepA_aok (keepA_die i _) ht
+      · exact ht
+  unfold AOK at hs ⊢
+  rw [hfr]; exact hs
+
+theorem outlined_step (F : Nat → List Frame) : StepInv (LoopEnv (τ := τ)) (fun s => Outlined F s.world) where
+  after := by
+    intro s e rest hi _
+    show Outlined F (after LoopEnv s e rest).world
+    rw [after_world]
+    split
+    · exact outlined_send F _ _ _ _ _ hi
+    · exact hi
+  afterFinal := fun s e rest hi _ => outlined_send F .final e.id .abort s.storeStamp s.world hi
+  advance := fun s hi => hi
+  halfAdvance := fun s hi => hi
+  clear := fun s hi => hi
+
 end Ioflo.SkedLoop
